@@ -797,10 +797,7 @@ func (e *Engine) isRoot(f *ssa.Function) bool {
 	if c := e.contractOf[f]; c != nil && c.Flags["inline"] {
 		return false
 	}
-	if !e.inlinable(f) {
-		return true
-	}
-	return ast.IsExported(f.Name())
+	return !e.inlinable(f)
 }
 
 func (e *Engine) selfRecursive(f *ssa.Function) bool {
